@@ -1035,6 +1035,13 @@ def slice_to_ascending_slice(
     if key.step is None or key.step > 0:
         return key
 
+    if (key.start is not None and key.start < 0) or (key.stop is not None and key.stop < 0):
+        # normalize negative start and stop to the positions they refer to
+        start, stop, _ = key.indices(size)
+        if start <= stop: # nothing is selected; start is -1 if it is before the first position
+            return EMPTY_SLICE
+        key = slice(start, None if stop < 0 else stop, key.step)
+
     stop = key.start if key.start is None else key.start + 1
 
     if key.step == -1:
